@@ -24,6 +24,14 @@ CLAIMED = {
     note='Trusted: clang front end, vf/irparse.py / irsym.py / irx.py (interpreter, libc model), z3, the oracles written from vnacal_new(3) and vnacal_layout.h.  Linear solvers are hooked on the calibrate side (C19 covers LU; QR not covered).  '
          'Outside: TRL / unknown parameters, measurement-error weighting, several frequencies, interpolation in apply, > 3 ports, measure-zero sets where free values coincide (listed per path).',
     design='DESIGN.md section 3 / C01', cmd='python3-vt ./check C01', engine='irx+z3'),
+ 'C02': dict(
+    technique='whole-flow symbolic execution of the real vnacal_new_solve / _vnacal_new_solve_auto (clang-14 IR -> vf/irx.py) with every measured value symbolic and the numeric kernels replaced by hooks returning arbitrary values (fresh symbols); every feasible combination of comparison outcomes is explored (z3 / witness points decide feasibility) for small iteration limits; counterexamples replayed natively (clang ASan/UBSan)',
+    text='Bounded proof for ONE clause of C02 - the iteration limit bounds the work and failures are clean: for 7 calibrations with an unknown parameter (unknown reflect through the double- and single-reflect entry points, unknown line; T8, U8, TE10, UE14, E12; 1 frequency) '
+         'and iteration limits 1..2 (3 in thorough), with every measured value a free complex symbol and every result of _vnacommon_qr / _vnacommon_qrsolve2 / _vnacommon_mldivide an arbitrary value, on every feasible combination of outcomes of the improvement, '
+         'Marquardt and convergence tests: vnacal_new_solve returns; it linearises at most limit + 1 times; a failure is -1 with errno EDOM and exactly one message (failed to converge / singular), success installs a calibration; no access outside owned memory; '
+         'nothing stays allocated after vnacal_new_free + vnacal_free.  Convergence to the true values and the effect of the tolerances are NOT claimed (a floating-point iteration is outside what the installed solvers decide).',
+    note='Trusted: clang front end, vf/irx.py, z3, the kernel hooks (arbitrary finite values, full rank, non-zero determinant - an over-approximation of the real kernels on well-posed data).  Outside: closed-form TRL, correlated parameters, m-error weighting, limits > 3.',
+    design='DESIGN.md section 3 / C02', cmd='python3-vt ./check C02', engine='irx+z3'),
  'C06': dict(
     technique='whole-flow symbolic execution of the real vnadata_cksave / vnadata_save / vnadata_load / vnadata_convert (clang-14 IR -> vf/irx.py over an in-memory file system; symbolic doubles cross the file as numeric placeholders mapped back by value) with z3 deciding cell-by-cell equality against an independent reader of the formats and against the loaded object; counterexamples replayed as generated C programs on a clang ASan/UBSan build',
     text='Bounded proof (exact algebra, z3) on the real saver and loader: for S/Z/Y objects with 1..3 ports (4 in thorough), H/G/T/U/A/B with 2 ports and input-impedance vectors with 1..3 ports, file types Touchstone 1 (.sNp), Touchstone 2 (.ts) and NPD, '
@@ -155,7 +163,6 @@ CLAIMED = {
 }
 
 NA_REASONS = {
- 'C02': 'the claim is convergence of a Levenberg-Marquardt / TRL iteration in IEEE arithmetic to the true values within tolerances: no installed solver decides convergence of a floating-point iteration; see DESIGN.md section 6',
  'C14': 'most of the property is behaviour of the emitter and parser of libyaml, a binary without source in this image (not encodable); see DESIGN.md section 6',
 }
 NOT_APPLICABLE = {}
